@@ -474,6 +474,15 @@ class Interp:
                         break
                     if isinstance(k, M.ClassInfo) and (t.attr in k.methods or t.attr in k.assigns):
                         break
+            if setter is None and self.heap and isinstance(base, Obj) and isinstance(base.cls, M.ClassInfo) and self.model is not None:
+                for k in self.model.mro(base.cls):
+                    if isinstance(k, M.ClassInfo) and t.attr in k.properties:
+                        if 'set' not in k.properties[t.attr] and self.precise_exc:
+                            s.env['__exc'] = 'AttributeError'       # a property without setter
+                            return
+                        break
+                    if isinstance(k, M.ClassInfo) and (t.attr in k.methods or t.attr in k.assigns):
+                        break
             if setter is not None:
                 # obj.prop = value where prop has a setter: interpret the setter on the object
                 key = '__val@%d' % len(self._inline_stack)
@@ -624,7 +633,7 @@ class Interp:
             for st in states:
                 for s2, v in self.expr(item.context_expr, st):
                     if item.optional_vars is not None:
-                        self.assign(item.optional_vars, v if not is_concrete(v) else TOP, s2, n, quiet=True)
+                        self.assign(item.optional_vars, v if (not is_concrete(v) or isinstance(v, Obj)) else TOP, s2, n, quiet=True)
                     nxt.append(s2)
             states = nxt
         return self.block(n.body, states)
@@ -749,6 +758,8 @@ class Interp:
         for t in types:
             tn = _text(t).split('.')[-1]
             if tn == name:
+                return True
+            if tn == 'BaseException' or (tn == 'Exception' and name not in ('KeyboardInterrupt', 'SystemExit', 'GeneratorExit')):
                 return True
             a, b = getattr(builtins, name, None), getattr(builtins, tn, None)
             if isinstance(a, type) and isinstance(b, type):
@@ -1818,8 +1829,28 @@ class Interp:
            and isinstance(args[0], (Obj, TextObj)) and isinstance(args[1], str):
             o, nm = args[0], args[1]
             if fname == 'setattr' and len(args) == 3:
+                if isinstance(o, Obj) and isinstance(o.cls, M.ClassInfo) and nm.isidentifier() and self.model is not None and len(n.args) == 3:
+                    # goes through a property setter when the class has one (a property without setter raises AttributeError)
+                    tgt = ast.Attribute(value=n.args[0], attr=nm, ctx=ast.Store())
+                    ast.copy_location(tgt, n)
+                    self.assign(tgt, args[2], s, n, quiet=True)
+                    return None
                 o.attrs[nm] = args[2]
                 return None
+            if fname == 'getattr' and not nm.startswith('@') and isinstance(o, Obj) and len(n.args) >= 2:
+                if nm in o.attrs:
+                    return o.attrs[nm]
+                if isinstance(o.cls, M.ClassInfo) and self.model is not None and nm.isidentifier():
+                    owner = self.model.find_attr_class(o.cls, nm)
+                    if owner is not None:
+                        src = ast.Attribute(value=n.args[0], attr=nm, ctx=ast.Load())
+                        ast.copy_location(src, n)
+                        return self.ev_Attribute(src, s)
+                if len(args) == 3:
+                    return args[2]
+                if self.precise_exc:
+                    s.env['__exc'] = 'AttributeError'
+                return TOP
             if fname == 'delattr':
                 if nm in o.attrs:
                     del o.attrs[nm]
